@@ -1,3 +1,194 @@
 import DaeVerif.C20.Model
+/-!
+# C20 — invariants and their preservation
+
+The pending flag is treated as a *token*: it is created by the successful CAS in
+`tryQueueReloadRequest` and travels queue → worker → (reloading flag →) main loop → (release
+goroutine), until someone stores `pending=false`.  `tokens s` counts where tokens currently are;
+the main invariant is `tokens s = [pending]`, hence at most one.  `owed s` counts the
+`endReloadProxyFailureSuppression` calls that are still due; `suppress = owed`.
+-/
 namespace DaeVerif.C20
+
+/-! ## weights of sections -/
+
+def wsum (f : Micro → Nat) : List Micro → Nat
+  | [] => 0
+  | x :: xs => f x + wsum f xs
+
+@[simp] theorem wsum_nil (f : Micro → Nat) : wsum f [] = 0 := rfl
+@[simp] theorem wsum_cons (f : Micro → Nat) (x : Micro) (xs : List Micro) :
+    wsum f (x :: xs) = f x + wsum f xs := rfl
+@[simp] theorem wsum_append (f : Micro → Nat) (a b : List Micro) :
+    wsum f (a ++ b) = wsum f a + wsum f b := by
+  induction a with
+  | nil => simp
+  | cons x xs ih => simp [ih, Nat.add_assoc]
+
+/-- sections of the worker that give the token away (release it, hand it to the main loop, or
+take the process down). -/
+def Micro.tokW : Micro → Nat
+  | .storePF | .beginHandoff | .fatal => 1
+  | _ => 0
+
+/-- the main loop's signal path holds a freshly created token while `beginSend` is ahead. -/
+def Micro.sigTok : Micro → Nat
+  | .beginSend _ => 1
+  | _ => 0
+
+/-- sections of the run-state handler that give the token away. -/
+def Micro.isRelM : Micro → Bool
+  | .storePF | .finishFailHead | .finishSucc | .exitHold => true
+  | _ => false
+
+def Micro.relM (x : Micro) : Nat := if x.isRelM then 1 else 0
+
+/-- sections that stand for one outstanding `endReloadProxyFailureSuppression`. -/
+def Micro.sup : Micro → Nat
+  | .endSupp | .beginHandoff | .fatal | .finishSucc | .exitHold => 1
+  | _ => 0
+
+def anyRelM (l : List Micro) : Bool := l.any Micro.isRelM
+
+@[simp] theorem anyRelM_nil : anyRelM [] = false := rfl
+@[simp] theorem anyRelM_cons (x : Micro) (xs : List Micro) :
+    anyRelM (x :: xs) = (x.isRelM || anyRelM xs) := by simp [anyRelM]
+@[simp] theorem anyRelM_append (a b : List Micro) : anyRelM (a ++ b) = (anyRelM a || anyRelM b) := by
+  simp [anyRelM]
+
+theorem anyRelM_false_of_relM_zero (l : List Micro) (h : wsum Micro.relM l = 0) : anyRelM l = false := by
+  induction l with
+  | nil => rfl
+  | cons x xs ih =>
+    simp only [wsum_cons, Micro.relM] at h
+    cases hx : x.isRelM <;> simp [hx] at h ⊢
+    exact ih h
+
+/-- where the tokens are. -/
+def tokens (s : St) : Nat :=
+  s.queue.length + wsum Micro.tokW s.w + (s.reloading || anyRelM s.m).toNat +
+    wsum Micro.sigTok s.m + s.gBlocked + s.gStore
+
+/-- outstanding `endReloadProxyFailureSuppression` calls. -/
+def owed (s : St) : Nat :=
+  s.queue.length + wsum Micro.sup s.w + wsum Micro.sup s.m + (s.reloading && !anyRelM s.m).toNat +
+    s.gBlocked + s.gStore + s.gEnd
+
+/-! ## syntactic well-formedness of programs -/
+
+def Micro.wAllowed : Micro → Bool
+  | .setActive _ | .coalesce | .setProg _ | .setErr _ | .nop | .storePF | .endSupp | .readProg
+  | .writeClr | .setStaged _ | .clearRet | .beginHandoff | .startRet | .notifyM | .fatal => true
+  | _ => false
+
+def Micro.mAllowed : Micro → Bool
+  | .casQ _ | .beginSend _ | .endSupp | .writeBusy _ | .storePF | .readProg | .writeClr
+  | .setProg _ | .setActive false | .setErr _ | .nop | .setStaged _ | .startRet
+  | .storeReloading false | .waitReady | .setResult | .finishFailHead | .finishSucc
+  | .exitHold | .exitIdle => true
+  | _ => false
+
+def Micro.isReader : Micro → Bool
+  | .readProg | .writeClr | .writeBusy _ => true
+  | _ => false
+
+def Micro.clrW : Micro → Bool
+  | .setActive false | .beginHandoff | .fatal => true
+  | _ => false
+
+def Micro.clrM : Micro → Bool
+  | .setActive false | .finishFailHead | .finishSucc | .exitHold => true
+  | _ => false
+
+def anyRd (l : List Micro) : Bool := l.any Micro.isReader
+def anyClrW (l : List Micro) : Bool := l.any Micro.clrW
+def anyClrM (l : List Micro) : Bool := l.any Micro.clrM
+
+@[simp] theorem anyRd_nil : anyRd [] = false := rfl
+@[simp] theorem anyRd_cons (x : Micro) (xs : List Micro) : anyRd (x :: xs) = (x.isReader || anyRd xs) := by
+  simp [anyRd]
+@[simp] theorem anyRd_append (a b : List Micro) : anyRd (a ++ b) = (anyRd a || anyRd b) := by simp [anyRd]
+@[simp] theorem anyClrW_nil : anyClrW [] = false := rfl
+@[simp] theorem anyClrW_cons (x : Micro) (xs : List Micro) : anyClrW (x :: xs) = (x.clrW || anyClrW xs) := by
+  simp [anyClrW]
+@[simp] theorem anyClrW_append (a b : List Micro) : anyClrW (a ++ b) = (anyClrW a || anyClrW b) := by
+  simp [anyClrW]
+@[simp] theorem anyClrM_nil : anyClrM [] = false := rfl
+@[simp] theorem anyClrM_cons (x : Micro) (xs : List Micro) : anyClrM (x :: xs) = (x.clrM || anyClrM xs) := by
+  simp [anyClrM]
+@[simp] theorem anyClrM_append (a b : List Micro) : anyClrM (a ++ b) = (anyClrM a || anyClrM b) := by
+  simp [anyClrM]
+
+/-- worker programs: only worker sections; a `coalesce` is run while holding a token; every
+release is followed by the busy-report cleanup; `active` is cleared (or handed over) later. -/
+def wfW : List Micro → Bool
+  | [] => true
+  | x :: rest =>
+    x.wAllowed && wfW rest &&
+    (match x with
+     | .coalesce => decide (1 ≤ wsum Micro.tokW rest)
+     | .storePF => anyRd rest
+     | .setActive true => anyClrW rest
+     | _ => true)
+
+/-- main-loop programs. -/
+def wfM : List Micro → Bool
+  | [] => true
+  | x :: rest =>
+    x.mAllowed && wfM rest &&
+    (match x with
+     | .storeReloading _ => anyRelM rest && anyClrM rest
+     | .storePF => anyRd rest
+     | .finishFailHead => anyRd rest
+     | _ => true)
+
+/-- the first token-releasing section of the handler is a bare `pending.Store(false)` (the
+re-listen failure branch): it must run with `reloading` already cleared. -/
+def firstRelIsStore : List Micro → Bool
+  | [] => false
+  | .storePF :: _ => true
+  | .storeReloading _ :: _ => false
+  | .finishFailHead :: _ => false
+  | .finishSucc :: _ => false
+  | .exitHold :: _ => false
+  | _ :: rest => firstRelIsStore rest
+
+theorem anyRelM_of_firstRelIsStore (l : List Micro) (h : firstRelIsStore l = true) : anyRelM l = true := by
+  induction l with
+  | nil => simp [firstRelIsStore] at h
+  | cons x xs ih =>
+    cases x <;> simp_all [firstRelIsStore, Micro.isRelM]
+
+/-! ## the invariant -/
+
+structure Inv (s : St) : Prop where
+  tok : tokens s = s.pending.toNat
+  sup : s.suppress = owed s
+  wfw : wfW s.w = true
+  wfm : wfM s.m = true
+  rel1 : wsum Micro.relM s.m ≤ 1
+  store : firstRelIsStore s.m = true → s.reloading = false
+  note : s.reloading = true → anyRelM s.m = false → s.notify = true
+  busy : s.progress.isBusy = true → s.pending = true ∨ anyRd s.m = true ∨
+          anyRd s.w = true ∨ 0 < s.gStore + s.gEnd + s.gRead + s.gWrite
+  act : s.active = true → anyClrW s.w = true ∨ anyClrM s.m = true ∨ s.reloading = true
+
+def Good (s : St) : Prop := s.exited = true ∨ Inv s
+
+/-! ## facts about the tables (finite checks) -/
+
+def wPathOk (p : List Eff) : Bool :=
+  let w := expand p
+  wfW w && wsum Micro.tokW w == 1 && wsum Micro.sup w == 1
+
+def hPathOk (p : HPath) : Bool :=
+  let m := expand p.effs
+  wfM m && decide (wsum Micro.relM m ≤ 1) && wsum Micro.sigTok m == 0 &&
+  (if p.reloading then anyRelM m && wsum Micro.sup m == 1 && !firstRelIsStore m
+   else !anyRelM m && wsum Micro.sup m == 0)
+
+theorem workerPaths_ok : workerPaths.all wPathOk = true := by decide
+
+theorem handlerPaths_ok : handlerPaths.all hPathOk = true := by decide
+
 end DaeVerif.C20
